@@ -225,4 +225,25 @@ def run(ctx):
         except Exception as ex:
             ctx.violation(f"PELT(cost=c, min_segment_length=2) on 30 x 1 data raised {type(ex).__name__}: {str(ex)[:120]} -- the configuration is valid (the cost needs p + 1 = 2 rows) and "
                           f"runs with a fresh cost object; c had served a 3-column detector before", inp, {"what": "shared-cost-object", "detector": "PELT", "cls": type(ex).__name__})
+    # ---- DEFAULT configurations on long, wide series run to completion with well-formed output (no hyper-parameter passed at all) ----
+    from skchange.anomaly_detectors import CAPA as _CAPAl, MVCAPA as _MVCAPAl, CircularBinarySegmentation as _CBSl, StatThresholdAnomaliser as _STAl
+    from skchange.change_detectors import MovingWindow as _MWl, SeededBinarySegmentation as _SBSl
+    for n_l, p_l in [(600, 10), (2500, 3), (1100, 1), (180, 2)]:
+        Xl = pd.DataFrame(rng.normal(size=(n_l, p_l)))
+        Xl.iloc[n_l // 3: n_l // 2] += 3.0
+        for name_l, mk_l in [("PELT", PELT), ("MovingWindow", _MWl), ("SeededBinarySegmentation", _SBSl), ("CAPA", _CAPAl), ("MVCAPA", _MVCAPAl),
+                             ("StatThresholdAnomaliser(PELT())", lambda: _STAl(PELT()))] + ([("CircularBinarySegmentation", _CBSl)] if n_l <= 200 else []):
+            if name_l.startswith("Stat") and p_l != 1:
+                continue
+            inp = {"detector": name_l, "defaults": True, "n": n_l, "p": p_l}
+            ctx.case({"default_long": name_l, "n": n_l, "p": p_l}, nontrivial=True)
+            try:
+                with time_limit(120):
+                    y_l = mk_l().fit(Xl).predict(Xl)
+                dt = y_l["ilocs"].dtype
+                if not (isinstance(y_l.index, pd.RangeIndex) and (dt == np.int64 or (isinstance(dt, pd.IntervalDtype) and dt.subtype == np.int64 and dt.closed == "left"))):
+                    ctx.violation(f"{name_l}() on a {n_l} x {p_l} series: malformed output (index {type(y_l.index).__name__}, ilocs dtype {dt})", inp, {"what": "default-long-malformed", "detector": name_l})
+            except Exception as ex:
+                ctx.violation(f"{name_l}() with default hyper-parameters on a {n_l} x {p_l} series raised {type(ex).__name__}: {str(ex)[:120]}", inp,
+                              {"what": "default-long-exception", "detector": name_l, "cls": type(ex).__name__})
 
